@@ -318,7 +318,11 @@ def check_property(prop: str, tier: str) -> int:
             "must_reach": must,
             "inconclusive_units": inconclusive,
             "harness_errors": harness_errors,
-            "coverage_certificates": certs,
+            "coverage_certificates": {"certified": sum(1 for c in certs if c.get("status") == "certified"),
+                                      "certified_z3_only": sum(1 for c in certs if c.get("status") == "certified-z3-only"),
+                                      "skipped": sum(1 for c in certs if str(c.get("status", "")).startswith("skipped")),
+                                      "not_certified": [c for c in certs if c.get("status") == "NOT-CERTIFIED"],
+                                      "examples": certs[:4]},
             "stubs": stubs,
             "outside_the_claim": outside,
             "known_findings_met": [
